@@ -49,12 +49,16 @@ def msh9_for(version, name):
     return None
 
 
-def msh_line(version, name, ec=None, ctrl='1', msh9=None, extra=''):
+def msh_line(version, name, ec=None, ctrl='1', msh9=None, extra='', vid=False):
+    """vid=True: MSH-12 carries the internationalization code too (VID datatype, from v2.3.1): `2.5^ITA`"""
     ec = ec or er7ref.std(version)
     f = ec['FIELD']
     m9 = (msh9 or msh9_for(version, name) or 'ZZZ^Z01').replace('^', ec['COMPONENT'])
+    m12 = version
+    if vid and er7ref.vkey(version) >= (2, 3, 1):
+        m12 = version + ec['COMPONENT'] + 'ITA'
     return 'MSH' + f + gen.msh2(ec) + f + f.join(['SA', 'SF', 'RA', 'RF', '20200101120000', '', m9, ctrl, 'P',
-                                                   version]) + extra
+                                                   m12]) + extra
 
 
 def emit(node, rng, mode='required', max_rep=1, depth=0, path=()):
